@@ -476,6 +476,12 @@ def gen_compile_ops(ctx, n, cnames):
         for ch in "abcdefghijklmnopqrstuvwxyzABCDEFGHIJKLMNOPQRSTUVWXYZ%'\"\\/:.;+-<> 5":
             texts.append((ty, ch))
             texts.append((ty, "%" + ch))
+    if "datetime" in MODEL_TYPES:
+        # embedded date / time / date-time patterns next to every other field: which combinations creation refuses
+        import text_entrypoints as te
+        for e in te.EMBEDDED:
+            for f in te.FIELD_SPECS:
+                texts += [("datetime", f"{e} {f}"), ("datetime", f"{f} {e}")]
     for _ in range(n):
         ty = rng.choice(MODEL_TYPES)
         c = rng.random()
